@@ -43,7 +43,7 @@ type c09Node struct {
 	confNonce  uint64
 	pending    uint64
 	receipts   map[common.Hash]uint64 // hash -> status
-	errMode    map[common.Hash]int    // 1: batch element fails, 2: individual query fails too
+	errMode    map[common.Hash]int    // 1: batch element fails, 2: individual query fails too, 3: no response for the batch element
 	fail       map[string]bool        // kind -> whole call fails; "send" -> SendTransaction fails
 	hold       map[string]bool        // kind -> park the call until released (blocknum: always)
 	parked     []*c09Parked
@@ -51,6 +51,10 @@ type c09Node struct {
 	lastTx     *types.Transaction
 	ignoreCtx  bool // function mocks do not look at ctx for batch / receipt calls
 	activityAt time.Time
+	// what the node itself answered (wire truth), recorded at answer time: the recording wrapper
+	// sits above evm.go's adapter and must not take the adapter's word for it
+	batchTruth  map[common.Hash]c09Elem
+	singleTruth map[common.Hash]c09Elem
 }
 
 func c09NewNode(ignoreCtx bool) *c09Node {
@@ -58,6 +62,7 @@ func c09NewNode(ignoreCtx bool) *c09Node {
 		receipts: map[common.Hash]uint64{}, errMode: map[common.Hash]int{}, fail: map[string]bool{},
 		hold: map[string]bool{c09KBlock: true}, txs: map[common.Hash]*types.Transaction{},
 		ignoreCtx: ignoreCtx, activityAt: time.Now(),
+		batchTruth: map[common.Hash]c09Elem{}, singleTruth: map[common.Hash]c09Elem{},
 	}
 }
 
@@ -172,7 +177,7 @@ func (n *c09Node) ansNonceAt(ctx context.Context) (uint64, error) {
 // truth about one hash: 0 = receipt (status), 1 = no receipt, 2 = failing
 func (n *c09Node) truthLocked(h common.Hash, individual bool) (int, uint64) {
 	m := n.errMode[h]
-	if m == 2 || (m == 1 && !individual) {
+	if m == 2 || ((m == 1 || m == 3) && !individual) {
 		return 2, 0
 	}
 	if st, ok := n.receipts[h]; ok {
@@ -195,16 +200,20 @@ func (m *c09MockEVM) BatchCallContext(ctx context.Context, b []rpc.BatchElem) er
 	if m.n.fail[c09KBatch] {
 		return errC09Node
 	}
+	m.n.batchTruth = map[common.Hash]c09Elem{}
 	for i := range b {
 		h, _ := b[i].Args[0].(common.Hash)
 		k, st := m.n.truthLocked(h, false)
 		switch k {
 		case 0:
 			*(b[i].Result.(*types.Receipt)) = *m.n.mkReceipt(h, st)
+			m.n.batchTruth[h] = c09Elem{h: h, kind: 0, st: st}
 		case 1:
 			b[i].Error = ethereum.NotFound // what function mocks return for a missing receipt
+			m.n.batchTruth[h] = c09Elem{h: h, kind: 1}
 		default:
 			b[i].Error = errC09Node
+			m.n.batchTruth[h] = c09Elem{h: h, kind: 3}
 		}
 	}
 	return nil
@@ -239,10 +248,13 @@ func (m *c09MockEVM) TransactionReceipt(ctx context.Context, h common.Hash) (*ty
 	k, st := m.n.truthLocked(h, true)
 	switch k {
 	case 0:
+		m.n.singleTruth[h] = c09Elem{h: h, kind: 0, st: st}
 		return m.n.mkReceipt(h, st), nil
 	case 1:
+		m.n.singleTruth[h] = c09Elem{h: h, kind: 1}
 		return nil, ethereum.NotFound
 	}
+	m.n.singleTruth[h] = c09Elem{h: h, kind: 3}
 	return nil, errC09Node
 }
 func (m *c09MockEVM) TransactionByHash(ctx context.Context, h common.Hash) (*types.Transaction, bool, error) {
@@ -389,6 +401,20 @@ func (n *c09Node) serveOne(ctx context.Context, rq c09Req, inBatch bool) (c09Res
 		if k == 0 {
 			rc = n.mkReceipt(h, st)
 		}
+		el := c09Elem{h: h, kind: 3}
+		switch {
+		case k == 0:
+			el = c09Elem{h: h, kind: 0, st: st}
+		case k == 1 && inBatch:
+			el.kind = 2 // JSON null inside a batch
+		case k == 1:
+			el.kind = 1 // JSON null to the individual query: ethclient reports NotFound
+		}
+		if inBatch {
+			n.batchTruth[h] = el
+		} else {
+			n.singleTruth[h] = el
+		}
 		n.mu.Unlock()
 		switch k {
 		case 0:
@@ -429,8 +455,25 @@ func (n *c09Node) ServeHTTP(w http.ResponseWriter, r *http.Request) {
 			http.Error(w, "scripted batch failure", 500)
 			return
 		}
+		n.mu.Lock()
+		n.batchTruth = map[common.Hash]c09Elem{}
+		n.mu.Unlock()
 		out := make([]c09Resp, 0, len(rqs))
 		for _, rq := range rqs {
+			if rq.Method == "eth_getTransactionReceipt" && len(rq.Params) > 0 {
+				var h common.Hash
+				if json.Unmarshal(rq.Params[0], &h) == nil {
+					n.mu.Lock()
+					omit := n.errMode[h] == 3
+					if omit {
+						n.batchTruth[h] = c09Elem{h: h, kind: 3}
+					}
+					n.mu.Unlock()
+					if omit {
+						continue // the response batch has no answer to this call
+					}
+				}
+			}
 			rs, ok := n.serveOne(ctx, rq, true)
 			if !ok {
 				return
@@ -564,7 +607,12 @@ func (r *c09Rec) BatchCallContext(ctx context.Context, b []rpc.BatchElem) error 
 	for i := range b {
 		h, _ := b[i].Args[0].(common.Hash)
 		e := c09Elem{h: h}
+		r.node.mu.Lock()
+		te, known := r.node.batchTruth[h]
+		r.node.mu.Unlock()
 		switch {
+		case known:
+			e = te // what the node put on the wire for this element
 		case b[i].Error == nil:
 			e.kind = 0
 			if rc, ok := b[i].Result.(*types.Receipt); ok && rc != nil {
@@ -597,7 +645,15 @@ func (r *c09Rec) TransactionReceipt(ctx context.Context, h common.Hash) (*types.
 	defer r.mu.Unlock()
 	r.end(true)
 	fb := "RRpcErr"
+	r.node.mu.Lock()
+	te, known := r.node.singleTruth[h]
+	delete(r.node.singleTruth, h)
+	r.node.mu.Unlock()
 	switch {
+	case err != nil && ctx.Err() != nil:
+		// the call was cut by the shutdown: the monitor got no answer
+	case known:
+		fb = c09Reply(te)
 	case err == nil && rc != nil:
 		fb = coqApp("RReceipt", coqN(rc.Status))
 	case errors.Is(err, ethereum.NotFound):
